@@ -94,6 +94,8 @@ type Family struct {
 	Limits       Limits
 	WithFinality bool              // distinguish scenarios by the L1 finalized pointer at each L2 block close
 	Keep         func(*World) bool // on the finished world: is the scenario relevant to the property
+	// Spacings: every scenario of the family is run once per L2 block numbering (nil: the dense numbering only)
+	Spacings []Spacing
 }
 
 // Scenario is one enumerated operation sequence.
@@ -176,8 +178,11 @@ func Enumerate(f Family) []Scenario {
 }
 
 // Build replays an operation sequence from the initial world, finishes and materializes it.
-func Build(ops []Op) (*World, error) {
-	w := New()
+func Build(ops []Op) (*World, error) { return BuildSpaced(ops, Spacing{}) }
+
+// BuildSpaced is Build with another numbering of the L2 blocks.
+func BuildSpaced(ops []Op, sp Spacing) (*World, error) {
+	w := NewSpaced(sp)
 	for _, op := range ops {
 		if err := w.Step(op, Limits{}); err != nil {
 			return nil, err
